@@ -1,5 +1,6 @@
 """Ldot1q (802.1Q codec sub-check: C19, C05, C06, C07, C01) configuration for ./check"""
 CONF = {
+    'coq_sample': 15,   # cases re-evaluated inside Coq by vm_compute against the extracted runner's output
     'interesting': ['truncated-prefix-of-valid', 'drop-eligible', 'residue-flags', 'dirty-buffer', 'no-fixlengths',
                     'odd-payload', 'roundtrip', 'field-extreme'],
     'rule': 'All 256 values of the first tag byte (priority, drop-eligible, VLAN high nibble) with boundary low bytes; random tags with '
